@@ -412,10 +412,15 @@ impl<'a> Gen<'a> {
                 ("reviewer", "\u{17b}aneta"),
                 ("n\u{663}", "\u{663}"),
                 ("team_2", "core"),
+                ("team_2", "core"),
                 ("link", "https://example.com/a//b#frag"),
                 ("ticket", "#4711 // urgent"),
             ]);
             b.attrs.push((k.into(), v.into()));
+            if k == "team_2" && self.rng.chance(2, 3) {
+                // `-` and `_` are different characters: two attributes, two values
+                b.attrs.push(("team-2".into(), "platform".into()));
+            }
         }
         if self.rng.chance(1, 6) {
             // attribute names are case-sensitive: a differently-cased look-alike of a known name is
@@ -527,6 +532,7 @@ impl<'a> Gen<'a> {
             3 => format!("  {tok} padded with blanks  "),
             4 => format!("{tok}\tTAB and / slash & ampersand %20"),
             5 if self.rng.chance(1, 2) => format!("{tok} see issue #12, https://example.com/a//b#frag ; x < y > z"),
+            5 if self.rng.chance(1, 2) => format!("{tok} every {{block}} placeholder needs its {{condition}} and {{content}}, ${{1}} %s {{0}}"),
             _ => format!("{tok} items must be fruit"),
         }
     }
@@ -913,9 +919,19 @@ impl<'a> Gen<'a> {
                 .filter(|b| b.start_line < line && line < b.end_line && b.tag_lines == 1)
                 .max_by_key(|b| b.start_line)
             {
+                let tag_line = &r.lines[b.start_line - 1];
+                if self.rng.chance(1, 2) {
+                    // ... or only its last attribute was dropped
+                    if let Some(old) = with_dropped_attr(tag_line) {
+                        let fresh = !taken.iter().any(|t| matches!(t, LineEdit::Replaced { old: o } if *o == old));
+                        if fresh && !tag_line.contains(DROPPED_ATTR) {
+                            return (b.start_line, LineEdit::Replaced { old });
+                        }
+                    }
+                }
                 let tildes = "~".repeat(3 + self.rng.below(30));
                 let fresh = !taken.iter().any(|t| matches!(t, LineEdit::Replaced { old } if *old == tildes));
-                if fresh && !r.lines[b.start_line - 1].contains('~') {
+                if fresh && !tag_line.contains('~') {
                     return (b.start_line, LineEdit::Replaced { old: tildes });
                 }
             }
@@ -958,7 +974,9 @@ impl<'a> Gen<'a> {
                     && r.blocks.iter().any(|b| b.start_line < *l && *l <= b.end_line)
             }
             LineEdit::Replaced { old } if is_tag_rewrite(old) => {
-                r.blocks.iter().any(|b| b.start_line == *l && b.tag_lines == 1) && !r.lines[*l - 1].contains('~')
+                r.blocks.iter().any(|b| b.start_line == *l && b.tag_lines == 1 && b.end_line != *l)
+                    && !r.lines[*l - 1].contains('~')
+                    && (!old.contains(DROPPED_ATTR) || with_dropped_attr(&r.lines[*l - 1]).as_deref() == Some(old.as_str()))
             }
             _ => cands.contains(l),
         })
